@@ -36,7 +36,7 @@ TECHNIQUE = "deterministic simulation: stateful peer, setter then getter, refere
 CONFIGS = [("ET", "v1", "udp"), ("ET", "v2", "udp"), ("ET", "v2", "tcp"), ("ET", "v2_745", "udp"), ("ET", "v2_nopeak", "udp"),
            ("ES", "v1", "udp"), ("ES", "v2", "udp")]
 PRIORS = ["off", "charge247", "discharge247", "type1_on", "type2_off", "type3_on", "type4_on", "type5_off", "t745_on",
-          "t745_charge247", "notset", "garbage", "zeros"]
+          "t745_charge247", "notset", "garbage", "zeros", "winter_months", "one_month"]
 MODE_SLOTS = 8
 PS_PER_CASE = 12
 PS_CHUNKS = {"quick": 1, "thorough": 842}
@@ -74,14 +74,19 @@ def make_case(tier, seed, index):
     c = _space(tier)[index]
     if c[0] == "mode":
         _, ci, mi, pi, ch = c
+        rj = None
+        if CONFIGS[ci][0] == "ET" and index % 3 == 2:
+            rj = [(index // 3) % 9, [3, 4, 6][(index // 27) % 3]]
         return {"kind": "mode", "config": ci, "mode_slot": mi, "prior": PRIORS[pi], "chunk": ch,
-                "seed": (seed * 4099 + index) & 0xFFFFFF, "thorough": tier == "thorough"}
+                "seed": (seed * 4099 + index) & 0xFFFFFF, "thorough": tier == "thorough", "reject": rj}
     if c[0] == "export":
         return {"kind": "export", "fam": c[1], "chunk": c[2], "stride": EXPORT_STRIDE[tier], "seed": seed}
     return {"kind": "dod", "config": c[1], "seed": seed}
 
 
 def simplify(case):
+    if case.get("reject") is not None:
+        return [dict(case, reject=None)]
     return []
 
 
@@ -116,6 +121,8 @@ def prior_bytes(kind, v2, rnd):
         "t745_on": v2_group(6, 0, 7, 0, 0xF9, 127, -450, 90, 0x0FFF),
         "t745_charge247": v2_group(0, 0, 23, 59, 0xF9, 127, -450, 90, 0x0FFF),
         "notset": v2_group(0xFF, 0xFF, 0xFF, 0xFF, 85, 0, 0, 0, 0),
+        "winter_months": v2_group(8, 0, 17, 30, 0xFF, 0x3E, -30, 60, 0x0C03),
+        "one_month": v2_group(8, 0, 17, 30, 0, 0x01, 30, 60, 0x0800),
         "garbage": bytes([99, 99, 99, 99, 0x33, 0xAA, 0x7F, 0xFF, 0x12, 0x34, 0x7F, 0xFF]),
         "zeros": bytes(12),
     }
@@ -207,10 +214,23 @@ def run_mode(case):
             if not v2 and case["prior"] not in ("off", "charge247", "discharge247", "garbage", "zeros"):
                 prior = prior_bytes("rand", v2, rnd)
             setg(0, prior)
-            for i in (1, 2, 3):   # groups 2-4 switched ON beforehand
-                setg(i, prior_bytes("charge247" if i % 2 else "discharge247", v2, rnd))
+            for i in (1, 2, 3):   # groups 2-4 switched ON beforehand, with schedules of every type
+                if v2:
+                    kind_i = rnd.choice(["charge247", "discharge247", "type1_on", "type3_on", "type4_on", "t745_on",
+                                         "winter_months"])
+                else:
+                    kind_i = "charge247" if i % 2 else "discharge247"
+                setg(i, prior_bytes(kind_i, v2, rnd))
+            if case.get("reject") is not None:
+                # one request inside the setter's sequence is answered by a Modbus exception (peer busy / illegal
+                # value): the setter must either raise or, if it reports success, the mode must really be set
+                j, code = case["reject"]
+                world.net.begin_script([{"k": "ok"}] * j + [{"k": "exc", "code": code}], {"k": "ok"})
+            else:
+                world.net.begin_script([], {"k": "ok"})
             what = f"{fam}/{var}/{tr} prior group1={case['prior']} set_operation_mode({m.name}, {p}, {s})"
             rec = await C.do_call(world, "set", lambda: inv.set_operation_mode(m, p, s))
+            world.net.begin_script([], {"k": "ok"})
             if rec["outcome"] != "result":
                 stats["vacuous"] += 1
                 if rec["outcome"].startswith("other:") and rec["outcome"] != "other:ValueError":
